@@ -81,6 +81,14 @@ def make_form(kind):
         return vform.mass_vf(1)
     if kind == 'mass2d':
         return vform.mass_vf(2)
+    if kind in ('stiff2d', 'stiff3d'):
+        return vform.stiffness_vf(int(kind[-2]))
+    if kind == 'mass3d':
+        return vform.mass_vf(3)
+    if kind in ('divdiv2d', 'divdiv3d'):
+        return vform.divdiv_vf(int(kind[-2]))
+    if kind == 'l2f2d':
+        return vform.L2functional_vf(2)
     if kind == 'conv2d':
         V = VForm(2)
         u, v = V.basisfuns()
@@ -575,6 +583,7 @@ def _run(ctx, kind, fam, ctl):
 
     for step in range(nops):
         ops = [('assemble', 6), ('threads', 2)]
+        ops += [('highlevel', 2)]
         if case.arity == 2:
             ops += [('subset', 4), ('entry', 1)]
             if not case.vector:
@@ -676,6 +685,36 @@ def _run(ctx, kind, fam, ctl):
             else:
                 cmp_exact(D, want, 'matrix-differs', 'format %s layout %s differs bitwise from the entry-by-entry reference'
                           % (fmt, layout), fmt=fmt, layout=layout)
+            continue
+        if op == 'highlevel':
+            # the documented one-call route: assemble(problem, kvs, ...) -> compile cache -> instantiate -> assemble_entries
+            symmetric = bool(o.choice(2)) and case.symmetric_form and case.arity == 2
+            fmt = ['csr', 'csc', 'coo', 'bsr', 'mlb'][o.choice(5 if case.vector else 4)]
+            layout = ['blocked', 'packed'][o.choice(2)]
+            a = case.args(st)
+            kw = {}
+            if case.boundary is not None:
+                kw['boundary'] = case.boundary
+            kvs_arg = (case.kvs, case.kvs1) if case.kvs1 is not None else case.kvs
+            ctx.log(['assemble()', symmetric, fmt, layout, pyiga.get_max_threads()])
+            ctx.count('op.highlevel')
+            A = ctx.call('assemble', assemble.assemble, make_form(kind), kvs_arg, symmetric=symmetric, format=fmt, layout=layout,
+                         args=a, **kw)
+            if A is RAISED():
+                return
+            if case.arity == 1:
+                want = R
+                if kind == 'vfun2d' and layout == 'blocked':
+                    want = np.moveaxis(R, -1, 0)
+                cmp_exact(np.asarray(A), want, 'highlevel-vector-differs', 'assemble(form, kvs) (layout %s) differs from the reference' % layout)
+                continue
+            D = todense(A)
+            want = R
+            if case.vector:
+                packed, blocked = blocked_dense(R)
+                want = packed if layout == 'packed' else blocked
+            (cmp_close if symmetric else cmp_exact)(D, want, 'highlevel-differs', 'assemble(form, kvs, symmetric=%s, format=%s, layout=%s) '
+                                                    'differs from the entry-by-entry reference' % (symmetric, fmt, layout), fmt=fmt, layout=layout)
             continue
         if op == 'rows':
             # only selected rows (the route hierarchical assembly takes): _assemble_partial_rows
